@@ -179,6 +179,79 @@ def sig(c, region, dk, im, m):
     return "%s:%s" % (region, ",".join(kinds))
 
 
+# ------------------------------------------------------------------------------------------------
+# def= EXPRESSIONS: the text after `def=` (up to the next `;`) is a Go expression and is stored as written. No model
+# involved: the Go compiler evaluates the same expression next to the constructor's result (counted separately).
+# ------------------------------------------------------------------------------------------------
+DEF_EXPRS = [
+    ("string", '"tcp://" + DefaultHost'), ("string", '"a" + "b"'), ("string", '"run() {}"'), ("string", '`raw` + "x"'),
+    ("string", '"x" + "//y"'), ("string", 'DefaultHost'), ("string", '"q(" + DefaultHost + ")"'), ("string", 'string(rune(65 + 1))'),
+    ("string", '"f() {\\n}"'), ("string", '"a\\"b" + "c"'),
+    ("int", "200 + 1"), ("int", "'a' + 1"), ("int", 'len("abc") * DefaultPort'), ("int", "1 << 4"), ("int", "-DefaultPort"),
+    ("int", "(3 + 4) * 2"), ("rune", "'a' + 1"), ("rune", "'\\n'"), ("float64", "1.5 * 2"), ("bool", "DefaultPort > 3"),
+    ("[]int", "[]int{1, 2, DefaultPort}"), ("func() int", "func() int { return 5 }"), ("func()", "func() {}"),
+    ("map[string]int", 'map[string]int{"k": 1 + 1}'), ("*int", "new(int)"), ("error", 'errors.New("e" + "1")'),
+]
+
+
+def def_expr_leg(ctx, res):
+    b = pkgrun.Batch(ctx)
+    cases = []
+    n = ctx.n(24, 200)
+    for i in range(n):
+        picks = [DEF_EXPRS[(i * 3 + j) % len(DEF_EXPRS)] for j in range(3)] + [ctx.rng.choice(DEF_EXPRS)]
+        mode = ["list", "file", "star", "list"][i % 4]
+        getset = i % 3 == 1
+        fields, obs = [], []
+        for j, (ty, ex) in enumerate(picks):
+            # the directive in its spellings: alone, followed by another directive, after one
+            form = (i + j) % 3
+            line = ("//shoot: def=%s" % ex) if form == 0 or not getset else ("//shoot: def=%s; get" % ex) if form == 1 else ("//shoot: set;def=%s" % ex)
+            fields.append("\t%s\n\tf%d %s" % (line, j, ty))
+            if ty.startswith("func"):
+                obs.append('\temit("f%d", fmt.Sprint(v.f%d != nil))\n\temit("w%d", "true")' % (j, j, j))
+            elif ty == "error":
+                obs.append('\temit("f%d", fmt.Sprint(v.f%d))\n\temit("w%d", fmt.Sprint(%s))' % (j, j, j, ex))
+            elif ty == "*int":
+                obs.append('\temit("f%d", fmt.Sprint(v.f%d != nil && *v.f%d == 0))\n\temit("w%d", "true")' % (j, j, j, j))
+            else:
+                obs.append('\t{\n\t\tvar w %s = %s\n\t\temit("f%d", fmt.Sprintf("%%#v", v.f%d))\n\t\temit("w%d", fmt.Sprintf("%%#v", w))\n\t}' % (ty, ex, j, j, j))
+        args = ["new"] + (["-getset"] if getset else []) + {"list": ["-type=T"], "file": ["-file=t.go"], "star": ["-type=*"]}[mode]
+        src = ("package cs\n\n" + ("//go:generate shoot " + " ".join(args) + "\n\n" if mode == "star" else "") +
+               'import "errors"\n\nvar _ = errors.New\n\nconst DefaultHost = "h.example"\n\nconst DefaultPort = 40\n\n'
+               "type T struct {\n\t//shoot: new\n\tid int\n" + "\n".join(fields) + "\n}\n")
+        oracle = ('package cs\n\nimport (\n\t"errors"\n\t"fmt"\n)\n\nvar _ = errors.New\n\nfunc VerifObserve(emit func(string, string)) {\n\tv := NewT(7)\n\temit("id", fmt.Sprint(v.id))\n' +
+                  "\n".join(obs) + "\n}\n")
+        c = {"id": "dx%d" % i, "files": {"t.go": src}, "runs": [{"args": args}], "oracle": {".": oracle}, "cmd": "shoot " + " ".join(args),
+             "picks": picks}
+        b.add(c)
+        cases.append(c)
+    out = b.execute()
+    for c in cases:
+        r = out[c["id"]]
+        rc = r["runs"][0]["rc"]
+        res.evaluations += 1
+        res.hist("def_expression_mode", c["cmd"].split(" ", 2)[2])
+        got = r["obs"]
+        bad = []
+        if rc != 0 or r["compile"] != "ok":
+            bad = ["exit" if rc != 0 else "compile"]
+        else:
+            bad = ["f%d" % j for j in range(len(c["picks"])) if got.get("f%d" % j) != got.get("w%d" % j) or ("f%d" % j) not in got]
+            if got.get("id") != "7":
+                bad.append("id")
+        for k in bad:
+            j = int(k[1:]) if k[0] == "f" else None
+            res.violations.append({"case": "(defexpr %s)" % c["id"], "region": "WF", "differing_keys": [k],
+                                   "sig": "defexpr:%s" % (c["picks"][j][1] if j is not None else k),
+                                   "impl": {"exit": str(rc), "compile": r["compile"][:400], "value": got.get(k, "")},
+                                   "spec": {"value": got.get("w%d" % j, "") if j is not None else "exit 0, compiles, id = 7"}, "model": {},
+                                   "cmd": c["cmd"], "input_files": c["files"],
+                                   "why": "NewT does not store the value of the def= expression as written (the same expression evaluated by the compiler next to it)"})
+            break
+    res.extra["def_expressions"] = {"cases": len(cases), "expressions": [e for _, e in DEF_EXPRS]}
+
+
 def run(ctx, obl):
     res = core.Result()
     cases = gen_cases(ctx)
@@ -200,7 +273,10 @@ def run(ctx, obl):
                 "pointer to themselves, embedded structs of another package (also one NAMED like the package generated into, imported under an alias; its "
                 "unexported fields spelled like own fields)); each rendered to a package; `shoot new` run as -type=T, as a multi-type run with a generic "
                 "companion type processed first, as -file= and as -type=* (selection_mode), 12% a second time over its own output (rerun); the generated NewT "
-                "compiled and called with sentinel arguments, every leaf read back by reflection. non-trivial = at least one parameter and an embed, mark or default")
+                "compiled and called with sentinel arguments, every leaf read back by reflection; plus a leg of def= EXPRESSIONS (concatenations, "
+                "constants of the package, rune/shift/len arithmetic, composite and function literals, code-like text inside string literals; alone and "
+                "next to other directives; all three selection modes) where the compiler evaluates the same expression next to NewT's result. non-trivial = at least one parameter and an embed, mark or default")
+    def_expr_leg(ctx, res)
     xferleg.run(ctx, res, ctx.n(20000, 200000))
     res.assumptions = ["reflection reads of unexported fields report the stored value"]
     return res
